@@ -50,24 +50,36 @@ Theorem descendant_inside_subtree_or_raises : forall cwd s segs r,
 Proof. exact descendant_final. Qed.
 Print Assumptions descendant_inside_subtree_or_raises.
 
-(** static.File(s) behind Request.process: for EVERY file-system state (isdir / exists are arbitrary
-    functions), every list of index names made of ordinary components, and every request path, each
-    directory listed and the file opened for the response lie in the root's subtree
-    ([within root p]: root's components are a prefix of p's, and p has only ordinary components) *)
-Theorem static_serves_only_inside_root : forall cwd isdir exists_ indexNames s urlpath acc o,
+(** static.File(s) behind Request.process, with index names, ignoredExts (siblingExtensionSearch, "*"
+    included), processors, putChild children on the root and whatever childNotFound is configured:
+    for EVERY file-system state ([isdir], [exists_], [listdir] arbitrary, subject to: a directory
+    exists, and listdir returns ordinary names), every list of ordinary index names, every list of
+    slash-free ignored extensions, every processor table and every request path, each directory
+    listed, the file opened for the response and the path handed to a processor lie in the root's
+    subtree ([within root p]: root's components are a prefix of p's, and p has only ordinary
+    components) *)
+Theorem static_serves_only_inside_root :
+  forall cwd isdir exists_ listdir indexNames ignoredExts processed children s urlpath acc o,
   isabs cwd = true -> forallb okc indexNames = true ->
-  serve cwd isdir exists_ indexNames (mk cwd s) urlpath = (acc, o) ->
+  forallb (fun e => negb (has_sl e)) ignoredExts = true ->
+  (forall d n, In n (listdir d) -> okc n = true) ->
+  (forall p, isdir p = true -> exists_ p = true) ->
+  serve cwd isdir exists_ listdir indexNames ignoredExts processed children (mk cwd s) urlpath = (acc, o) ->
   (forall a, In a acc -> within (mk cwd s) (accessed a))
-  /\ (forall f, o = Served f \/ o = Listing f -> within (mk cwd s) f).
+  /\ (forall f rest, o = Served f \/ o = Listing f \/ o = Processed f rest -> within (mk cwd s) f).
 Proof. exact static_final. Qed.
 Print Assumptions static_serves_only_inside_root.
 
 (** ... and the same for any list of already-unquoted segments (a superset of what unquote yields) *)
-Theorem static_serves_only_inside_root_any_segments : forall cwd isdir exists_ indexNames s post acc o,
+Theorem static_serves_only_inside_root_any_segments :
+  forall cwd isdir exists_ listdir indexNames ignoredExts processed children s post acc o,
   isabs cwd = true -> forallb okc indexNames = true ->
-  serve_segments cwd isdir exists_ indexNames (mk cwd s) post = (acc, o) ->
+  forallb (fun e => negb (has_sl e)) ignoredExts = true ->
+  (forall d n, In n (listdir d) -> okc n = true) ->
+  (forall p, isdir p = true -> exists_ p = true) ->
+  serve_segments cwd isdir exists_ listdir indexNames ignoredExts processed children (mk cwd s) post = (acc, o) ->
   (forall a, In a acc -> within (mk cwd s) (accessed a))
-  /\ (forall f, o = Served f \/ o = Listing f -> within (mk cwd s) f).
+  /\ (forall f rest, o = Served f \/ o = Listing f \/ o = Processed f rest -> within (mk cwd s) f).
 Proof. exact static_segments_final. Qed.
 Print Assumptions static_serves_only_inside_root_any_segments.
 
